@@ -16,7 +16,7 @@ def signature(d, hist):
     if uc:
         return "index_vs_scan:upsert:%s" % uc
     qs = [q for q in d.get("queries", []) if q != "count"]
-    cls = sorted({"pk" if q.startswith("pk") or q == "range" else "unique" if q.startswith("ua") or q == "anull" else "secondary" if q.startswith("b") else q for q in qs})
+    cls = sorted({"pk" if q.startswith("pk") or q == "range" else "unique" if q.startswith("ua") or q in ("anull", "arange") else "secondary" if q.startswith("b") else q for q in qs})
     what = R.opname(op)
     return "index_vs_scan:%s:%s:%s" % ("+".join(cls), what, ",".join(R.features(hist)) or "-")
 
@@ -26,11 +26,11 @@ def wide_phase(chk):
     primary-key index, the secondary index and the scan after every step (TLC -simulate walks)."""
     import widetable
     thorough = chk.tier == "thorough"
-    hists = widetable.walks(chk, 60 if thorough else 5, 20 if thorough else 12, cap=1500 if thorough else 150)
+    hists = widetable.walks(chk, 120 if thorough else 24, 20 if thorough else 12, cap=1500 if thorough else 150)
     outs = widetable.execute(hists)
     probs, st = widetable.judge(hists, outs)
     # the same with the indexes created (and dropped) on the POPULATED table: WithDDL = TRUE
-    dh = widetable.walks(chk, 20 if thorough else 1, 14 if thorough else 8, n=700, ddl=True, cap=500 if thorough else 50)
+    dh = widetable.walks(chk, 60 if thorough else 12, 16 if thorough else 10, n=700, ddl=True, cap=500 if thorough else 50)
     dprobs, dst = widetable.judge(dh, widetable.execute(dh, n=700, ddl=True), n=700)
     late = sum(1 for h in dh for x in h if x["op"]["k"] == "create_index" and x["probes"]["count"] >= 100)
     if not late:
